@@ -28,6 +28,31 @@ ASSUMPTIONS = ["'never an internal error' is decided on the grid (all public mem
                "the Lean constructors are parent-less except for the sequence length of a direct parent"]
 
 
+def _tiny_cds(line):
+    """C05 operation lines about a CDS of total length <= 7 (the lengths around one codon, every start frame)"""
+    t = line.split()
+    try:
+        off = 2 if t[0] == "codons" else 1
+        k = int(t[off + 2])
+        vals = [int(x) for x in t[off + 3: off + 3 + 3 * k]]
+        total = sum(vals[3 * i + 1] - vals[3 * i] for i in range(k))
+        if t[0] == "codons":
+            return total <= 7 and t[-1] == "-"
+        return total <= 7
+    except (ValueError, IndexError):
+        return False
+
+
+# the codon queries of a CDS that is shorter than / as long as / one base longer than a codon have KNOWN answers (0 or 1
+# codons, the empty / one-letter translation): they are judged by C05's model and specification inside this run
+BORROW = [dict(prop="c05", max=4000, pick=_tiny_cds,
+               ops={"numcodons", "codons", "scancodons", "cdsseq", "cdsseqc", "translate", "hasstop", "inframestop",
+                    "canonstart", "startin"},
+               why="C19 'no internal error on any public operation': the codon queries of tiny CDSs (total length <= 7, "
+                   "every start frame, 1-2 exons, both strands) must ANSWER - with the values of C05's reading-frame "
+                   "specification (a codon-less CDS has 0 codons), not with a leaked error")]
+
+
 def impl(line):
     return V.impl(line)
 
